@@ -8,7 +8,7 @@ from sa.cfg import CFG, G_EXC, N, find_path, fmt_path, reachable, reaches
 from sa.db import AnalysisError, FuncInfo, bind_args, dotted, src, walk_local
 from sa.flow import defs_reaching, reaching_defs
 from sa.model import contains, enclosing, execute_impl_funcs, is_user_func_call, superstep_funcs
-from sa.variants import Variant, replace_once, sub_first, sub_once
+from sa.variants import Variant, chain, replace_once, sub_first, sub_once
 
 from .common import call_names, runner_no_raise, template_methods, vars_from_call
 
@@ -22,6 +22,7 @@ EXPLANATION = (
     "paths where its executor returned normally (or a cache hit); (R4) nested runs and map propagate the original exception object (no handler, default "
     "raise mode, 'raise result.error'); (R5) the error and pause paths of run() filter partial values with the non-raising default on_missing policy, "
     "so a user's on_missing='error' cannot replace the node's exception. (R6) no function under runners/ cancels a task or applies a time-out (the CancelledError/TimeoutError this injects would compete with the node's own exception for 'first error of the step' and is not an Exception the templates unwrap). R2 also requires the carrier's constructor to be total (str(cause) and attribute stores only); R3 evaluates the result-application loop under 'the result is an exception' as a valuation of that atom, so a second failure of the same step can never be unpacked as data."
+    " R3 also requires, for the async step, that the loop applying the gathered results is never left early (no raise/break/return inside it): gather waits for all siblings, so the partial state holds each one's outputs wherever the failing node sits in the ready order."
 )
 NOT_DECIDED = "That partial values are the correct values (a statement about computed data); which of several same-step failures is reported first is decided under C02."
 
@@ -356,6 +357,11 @@ def run(ctx) -> None:
             for w in writes:
                 bad = reaches(start, w, ef)
                 rep.add("C11.R3", f"{ss.qname}:write:{_wkey(w)}", not bad, f"{ss.module.rel}:{w.lineno}", "results are applied only for non-exception results" if not bad else "a failed node's result can be applied to the state")
+            # every gathered result is visited before the step raises: all siblings ran to completion
+            # (gather waits for them), so the partial state must hold each one's outputs wherever the
+            # failing node sits in the ready order — the loop that applies results is never left early
+            early = [x for s_ in outer.ast.body for x in ast.walk(s_) if isinstance(x, (ast.Raise, ast.Break, ast.Return)) and db.enclosing_func(x) is ss]
+            rep.add("C11.R3", f"{ss.qname}:all-results-applied-before-raise", not early, f"{ss.module.rel}:{early[0].lineno if early else outer.lineno}", "the loop applying the gathered results runs to its end; the first error is raised after it" if not early else f"the loop applying the gathered results is left early ('{src(early[0])[:50]}'): outputs of siblings that completed but come after the failing node in ready order are missing from the partial state")
             # the closure returns outputs only after a normal executor return / cache hit
             for ch in ss.children.values():
                 if not any(cal.func == collect for _, cal in db.callees(ch)):
@@ -508,4 +514,6 @@ VARIANTS = [
     Variant("template-error-path-onmissing", TS, replace_once("partial_values = filter_outputs(partial_state, graph, select) if partial_state is not None else {}", "partial_values = filter_outputs(partial_state, graph, select, on_missing) if partial_state is not None else {}"), {"C11.R5"}),
     Variant("filter-default-policy-error", "src/hypergraph/runners/_shared/helpers.py", replace_once("    select: str | list[str] | Any = _UNSET_SELECT,\n    on_missing: str = \"ignore\",\n) -> dict[str, Any]:", "    select: str | list[str] | Any = _UNSET_SELECT,\n    on_missing: str = \"error\",\n) -> dict[str, Any]:"), {"C11.R5"}),
     Variant("twin-handler-alias", SR, replace_once("            except Exception as e:\n                raise ExecutionError(e, state) from e", "            except Exception as exc:\n                cause = exc\n                raise ExecutionError(cause, state) from exc"), set()),
+    Variant("async-break-at-first-failure", AS, replace_once("            if first_error is None:\n                first_error = result\n            continue\n", "            first_error = result\n            break\n"), {"C11.R3"}),
+    Variant("twin-async-errors-collected-in-list", AS, chain(replace_once("    first_error: BaseException | None = None\n", "    errors: list[BaseException] = []\n"), replace_once("            if first_error is None:\n                first_error = result\n            continue\n", "            errors.append(result)\n            continue\n"), replace_once("    if first_error is not None:\n", "    first_error = errors[0] if errors else None\n    if first_error is not None:\n")), set()),
 ]
